@@ -359,6 +359,19 @@ theorem interp_turn_runs (s : Setup) (hwf : s.WF) (o : Option (Bool × Bool × B
   turn_runs s hwf o user bot hb
 
 open NemoVerif.RailsInterp in
+/-- **Exactly the selected categories run — at the level of the interpreter on the generated program**: in the trace the
+    loop of `generate_events` executes (any rail lists, any verdict functions, any option value), an input rail action is
+    executed only if input rails are selected, an output rail action only if output rails are selected, the LLM is called
+    only if dialog rails are selected, and no other rail action is executed at all. -/
+theorem interp_only_selected_run (s : Setup) (hwf : s.WF) (o : Option (Bool × Bool × Bool × Bool)) (user : String) (bot : Option String)
+    (hb : BotOK o bot) :
+    ∃ N, ∀ fuel, N ≤ fuel → ∃ tr, driveTraceN fuel s o user bot = some tr ∧
+      (∀ i n t, Obs.railCall "input" i n t ∈ tr → selI o = true) ∧ (∀ i n t, Obs.railCall "output" i n t ∈ tr → selO o = true) ∧
+      (Obs.llmCall ∈ tr → selD o = true) ∧ (∀ c i n t, Obs.railCall c i n t ∈ tr → c = "input" ∨ c = "output") := by
+  obtain ⟨N, h⟩ := interp_trace_is_spec s hwf o user bot hb
+  exact ⟨N, fun f hf => ⟨_, h f hf, specTrace_selected s o user bot⟩⟩
+
+open NemoVerif.RailsInterp in
 /-- non-vacuity: the concrete set-up is well-formed (finite facts) -/
 theorem exSetup_wf : exSetup.WF :=
   ⟨by decide, by decide, by decide, by decide⟩
